@@ -161,7 +161,16 @@ func (t *Term) Int64() (int64, bool) {
 	return t.C.Int64(), true
 }
 
-var commutative = map[string]bool{"+": true, "*": true, "and": true, "or": true, "xor": true, "eq": true, "band": true, "bor": true}
+var commutative = map[string]bool{"+": true, "*": true, "and": true, "or": true, "xor": true, "eq": true, "band": true, "bor": true, "bxor": true,
+	"xorbytes": true}
+
+func init() {
+	for _, op := range []string{"and", "or", "xor"} {
+		for _, b := range []string{"8", "16", "32", "64"} {
+			commutative[op+b] = true
+		}
+	}
+}
 
 // App builds an application node.  Commutative operators get sorted arguments.
 func App(s Sort, op string, args ...*Term) *Term {
